@@ -1,5 +1,6 @@
 import Deb822Verif.Props.C15
 import Deb822Verif.Props.C10
+import Deb822Verif.Lemmas.RelDedent
 /-!
 # C15 through C10 — relationship-typed accessors: the VALUE that comes back, not only its text
 
@@ -489,5 +490,149 @@ theorem C15_rel_get_parsed (g : Row) (hg : g ∈ Gen.Accessors.rows) (hk : g.kin
   refine ⟨by rw [C03.C03_parse_inverts d hd], ?_, e1, e2, e3, v3, v4⟩
   rw [C03.C03_parse_inverts d hd, Deb.paragraphs_tree]
   simp [hp]
+
+/-! ### 5b — the field as it is WRITTEN in the document
+
+In the document the field is `Key:` followed by a relationship field in some layout `f` —
+whitespace after the colon, continuation lines behind their indentation (`rawValue e = f.str`,
+`EntryS.str_rawValue`).  `Paragraph::get` hands out the lines without that indentation: the text of
+`f.docForm` (`Lemmas/RelDedent.lean`), a well-formed field with the same view. -/
+
+/-- the fields of a paragraph of the grammar, in order -/
+def paraEntries (p : Spec.ParaS) : List Spec.EntryS :=
+  p.first :: p.rest.filterMap fun i => match i with
+    | .entry e => some e
+    | .comment _ _ => none
+
+theorem content_entries (p : Spec.ParaS) : p.content = (paraEntries p).map Spec.EntryS.content := by
+  have : ∀ is : List Spec.PItem, (is.map Spec.PItem.content).flatten
+      = (is.filterMap fun i => match i with
+          | .entry e => some e
+          | .comment _ _ => none).map Spec.EntryS.content := by
+    intro is
+    induction is with
+    | nil => rfl
+    | cons i is ih => cases i <;> simp [Spec.PItem.content, ih]
+  simp [Spec.ParaS.content, paraEntries, this]
+
+theorem lget_entries (es : List Spec.EntryS) (k : Str) :
+    lget (es.map Spec.EntryS.content) k
+      = (es.find? fun e => e.key == k).map fun e => join ['\n'] e.valueLines := by
+  induction es with
+  | nil => rfl
+  | cons e es ih =>
+    rw [List.map_cons, lget_cons, List.find?_cons]
+    by_cases h : e.key = k
+    · simp [Spec.EntryS.content, h]
+    · have hb : (e.key == k) = false := beq_false_of_ne h
+      simp [Spec.EntryS.content, h, hb, ih]
+
+theorem paraEntries_wf (p : Spec.ParaS) (hp : p.WF) : ∀ e ∈ paraEntries p, e.WF := by
+  intro e he
+  simp only [paraEntries, List.mem_cons, List.mem_filterMap] at he
+  rcases he with rfl | ⟨i, hi, hie⟩
+  · exact hp.first_ok
+  · cases i with
+    | comment _ _ => cases hie
+    | entry e' =>
+      simp only [Option.some.injEq] at hie
+      subst hie
+      exact hp.rest_ok _ hi
+
+/-- **getter on parsed text, from the text in the document.**  `d` a well-formed document, `p` its
+    `i`-th paragraph, `e` the first field of `p` named `k` (the getter's name), written after its
+    colon as the text `f.str` of a well-formed relationship field `f` in any layout the deb822
+    grammar admits (continuation lines indented …).  The getter finds the text of `f.docForm` —
+    `f` without the whitespace after the colon and without the indentation of its continuation
+    lines — and its value is the tree of that layout, exposing exactly `f.view` and the substitution
+    variables of `f` -/
+theorem C15_rel_get_written (g : Row) (hg : g ∈ Gen.Accessors.rows) (hk : g.kind = .get)
+    (hr : isRelRow g = true) (d : Spec.DocS) (hd : d.WF) (i : Nat) (p : Spec.ParaS) (gs : List Spec.Gap)
+    (hp : d.paras[i]? = some (p, gs)) (k : Str) (hn : g.names = [k]) (e : Spec.EntryS)
+    (he : (paraEntries p).find? (fun e => e.key == k) = some e)
+    (f : FieldA) (hwf : f.WF) (hraw : rawValue e = f.str) :
+    (Deb.parse d.str).errors = []
+      ∧ (paragraphs (Deb.parse d.str).tree)[i]? = some p.node
+      ∧ f.docForm.WF ∧ f.docForm.str = dedentStr f.str
+      ∧ getSem g true p.node.children = .text f.docForm.str
+      ∧ relGetRelaxed g p.node.children = some (f.docForm.tree, [])
+      ∧ (f.hasSubstvar = false → relGet g p.node.children = some (.ok f.docForm.tree))
+      ∧ Rel.accEntries f.docForm.tree = some f.view ∧ Rel.substvars f.docForm.tree = f.substvars := by
+  have hpw : p.WF := (hd.paras_ok (p, gs) (List.mem_of_getElem? hp)).1
+  have hew : e.WF := paraEntries_wf p hpw e (List.mem_of_find?_eq_some he)
+  have hval : lget p.content k = some f.docForm.str := by
+    rw [content_entries, lget_entries, he, Option.map_some, ← dd_rawValue e hew, hraw,
+      dedentStr_field f hwf]
+  obtain ⟨a1, a2, a3, a4, a5, a6, a7⟩ :=
+    C15_rel_get_parsed g hg hk hr d hd i p gs hp f.docForm (docForm_wf f hwf) ⟨k, hn, hval⟩
+  refine ⟨a1, a2, docForm_wf f hwf, (dedentStr_field f hwf).symm, a3, a4, ?_, ?_, ?_⟩
+  · intro hsv; exact a5 (by rw [docForm_hasSubstvar]; exact hsv)
+  · rw [a6, docForm_view]
+  · rw [a7, docForm_substvars]
+
+/-- every non-empty value the lossless reader returns for a field of a well-formed document is a
+    `ValidValue`: `Entry::new` lays it out so that it reads back unchanged -/
+theorem validValue_parsed (e : Spec.EntryS) (h : e.WF) (hne : e.valueLines ≠ []) :
+    Spec.ValidValue (join ['\n'] e.valueLines) := by
+  obtain ⟨_, _, hv, hc⟩ := h
+  have hnl : ∀ x ∈ e.valueLines, '\n' ∉ x := by
+    intro x hx hmem
+    simp only [Spec.EntryS.valueLines, List.mem_append, List.mem_map] at hx
+    rcases hx with hx | ⟨c, hc', rfl⟩
+    · split at hx
+      · simp at hx
+      · simp only [List.mem_singleton] at hx; subst hx
+        exact absurd (hv.1 _ hmem) (by decide)
+    · exact absurd ((hc c hc').text_ok.1 _ hmem) (by decide)
+  unfold Spec.ValidValue
+  rw [splitOn_join '\n' _ hne hnl]
+  unfold Spec.EntryS.valueLines at hne ⊢
+  by_cases hev : e.v = []
+  · simp only [hev, ↓reduceIte, List.nil_append] at hne ⊢
+    cases hcs : e.conts with
+    | nil => rw [hcs] at hne; simp at hne
+    | cons c cs =>
+      rw [hcs] at hc
+      obtain ⟨h3, a, as, hta, hai, _⟩ := (hc c (by simp)).text_ok
+      simp only [List.map_cons]
+      refine ⟨by rw [hta]; simp, ⟨h3, ?_⟩, ?_⟩
+      · intro x hx; rw [hta] at hx; simp only [List.head?_cons, Option.some.injEq] at hx; subst hx; exact hai
+      · intro t ht
+        simp only [List.mem_map] at ht
+        obtain ⟨c', hc'', rfl⟩ := ht
+        exact (hc c' (by simp [hc''])).text_ok
+  · simp only [hev, ↓reduceIte, List.singleton_append]
+    refine ⟨hev, hv, ?_⟩
+    intro t ht
+    simp only [List.mem_map] at ht
+    obtain ⟨c', hc'', rfl⟩ := ht
+    exact (hc c' hc'').text_ok
+
+/-- **from one document to another.**  A relationship field read from a parsed well-formed
+    document (as in `C15_rel_get_written`; its value text is non-empty) and handed to the setter of
+    any relations pair on a paragraph `p2` of another parsed document: the printed paragraph is
+    accepted by the deb822 reader without error and the getter on the re-read paragraph has the
+    value tree `f.docForm.tree` again, exposing `f.view` -/
+theorem C15_rel_transfer (e : Spec.EntryS) (hew : e.WF) (hne : e.valueLines ≠ [])
+    (f : FieldA) (hwf : f.WF) (hraw : rawValue e = f.str)
+    (g : Row) (hg : g ∈ Gen.Accessors.rows) (hk : g.kind = .get) (hr : isRelRow g = true)
+    (s : Row) (hs : setterOf g = some s) (p2 : Spec.ParaS) (hp : p2.WF) (ht : p2.Term false) :
+    ∃ k cs', g.names = [k] ∧ setSem s (.text f.docForm.str) p2.node.children = some cs'
+      ∧ ∃ d : Spec.DocS, d.WF ∧ d.str = textList cs' ∧ Deb.parse (textList cs') = ⟨d.tree, []⟩
+        ∧ ∃ q : Spec.ParaS, paragraphs d.tree = [q.node]
+          ∧ getSem g true q.node.children = .text f.docForm.str
+          ∧ relGetRelaxed g q.node.children = some (f.docForm.tree, [])
+          ∧ (f.hasSubstvar = false → relGet g q.node.children = some (.ok f.docForm.tree))
+          ∧ (∀ k', k' ≠ k → Deb.get q.node k' = Deb.get p2.node k')
+          ∧ Rel.accEntries f.docForm.tree = some f.view ∧ Rel.substvars f.docForm.tree = f.substvars := by
+  have hv : Spec.ValidValue f.docForm.str := by
+    rw [← dedentStr_field f hwf, ← hraw, dd_rawValue e hew]
+    exact validValue_parsed e hew hne
+  obtain ⟨k, cs', a1, a2, d, d1, d2, d3, q, q1, q2, q3, q4, q5, q6, q7⟩ :=
+    C15_rel_set_reread g hg hk hr s hs p2 hp ht f.docForm (docForm_wf f hwf) hv
+  refine ⟨k, cs', a1, a2, d, d1, d2, d3, q, q1, q2, q3, ?_, q5, ?_, ?_⟩
+  · intro hsv; exact q4 (by rw [docForm_hasSubstvar]; exact hsv)
+  · rw [q6, docForm_view]
+  · rw [q7, docForm_substvars]
 
 end Deb822Verif.Props.C15
